@@ -41,6 +41,19 @@ AFTER = {   # changes first missed (by the quick tier or entirely), then caught 
  'C18-5': ('missed by quick and thorough', 'C18: JSON writers asked about the Log/Viterbi grammars (weights contain -inf)', 'quick'),
  'C18-6': ('missed by quick and thorough', 'C18: patterned weights whose default is not the semiring zero', 'quick'),
  'C19-5': ('missed by quick and thorough', 'C19: grammar queried, then a rule already in it gets a nonterminal edge added/removed, then queried again', 'quick'),
+ # ---- round 4
+ 'C01-7': ('missed by quick and thorough', 'C01: patterned factor weights whose default is not the semiring zero', 'quick'),
+ 'C01-8': ('missed by quick, caught by thorough', 'C01: expanded-child injection (S1(q,p,r) -> Y0(p,q) f0(r) with edgeless externals in Y0)', 'quick'),
+ 'C03-8': ('missed (the check had no -e route; the demonstration also had to be made independent of the sub-agent\'s worktree path, and the patch rebased after repair D30 touched the same line)', 'C03/C11: command-line route with -w ... -g -e -o, expected counts compared with w*grad/f', 'quick'),
+ 'C06-7': ('missed by quick, caught by thorough', 'C06: absorbing-default scenario (sparse operand with default 0 times an operand storing inf/nan outside its pattern)', 'quick'),
+ 'C08-8': ('missed by quick and thorough', 'C08: operand pairs that decompose the same dimensions differently (statement: "of any pattern")', 'quick'),
+ 'C11-7': ('first evaluation timed out under load; separately: missed by quick, caught by thorough (C02 and C13 quick catch it)', 'C11: fixed case with values of magnitude 1e9', 'quick'),
+ 'C11-8': ('missed by quick, caught by thorough', 'C11: fixed cases running the command-line route in its three variants in every run', 'quick'),
+ 'C14-8': ('missed by quick and thorough', 'C14: patterned factor weights with non-zero / infinite defaults, patterned weights in half of the round trips', 'quick'),
+ 'C15-7': ('missed by quick and thorough', 'C15: rule right-hand sides whose ext was assigned twice with the type read in between', 'quick'),
+ 'C16-7': ('missed by quick and thorough', 'C16: edges whose attachment nodes are a proper prefix of / longer than the label type', 'quick'),
+ 'C18-7': ('missed by quick and thorough', 'C18: snapshots include the attribute names of the grammar and rule-graph objects', 'quick'),
+ 'C18-8': ('missed by quick and thorough', 'C18: snapshots include the process-wide torch state; method=linear on non-linear grammars is asked (raises)', 'quick'),
  'C20-1': ('(strengthened before the first evaluation, after reading the sub-agent\'s report)', 'C20: permuted / equal / prefix copies of a domain in the equality clause', 'quick'),
 }
 for d in sorted(glob.glob(os.path.join(V, 'seeded', '*'))):
